@@ -177,10 +177,13 @@ func UnpackLayer(dest string, layer io.Reader, options *TarOptions) (size int64,
 			// we manually retarget these into the temporary files we extracted them into
 			if hdr.Typeflag == tar.TypeLink && strings.HasPrefix(filepath.Clean(hdr.Linkname), WhiteoutLinkDir) {
 				linkBasename := filepath.Base(hdr.Linkname)
-				srcHdr = aufsHardlinks[linkBasename]
-				if srcHdr == nil {
+				staged := aufsHardlinks[linkBasename]
+				if staged == nil {
 					return 0, errors.New("invalid aufs hardlink")
 				}
+				// remap a copy: the staged header may be linked to again
+				hdrCopy := *staged
+				srcHdr = &hdrCopy
 				tmpFile, err := os.Open(filepath.Join(aufsTempdir, linkBasename))
 				if err != nil {
 					return 0, err
